@@ -198,7 +198,7 @@ class C11Oracle(Oracle):
 class Program:
     def __init__(self, rng, tier):
         self.rng = rng
-        opts = {"patterns": ["full", "uniform", "mixed", "mixed", "empty"]}
+        opts = {"patterns": ["full", "uniform", "mixed", "mixed", "empty"], "allow_same_names": True}
         if rng.random() < 0.9:
             opts["integer_max_volume"] = True
         self.world = gen_world(rng, opts)
